@@ -20,6 +20,7 @@ InitK ==
     wfi |-> {}, vpr |-> <<>>, tsi |-> 0, mcd |-> 0, lrr |-> FALSE,
     scroll |-> <<>>, hscroll |-> <<>>, lpk |-> 0,
     um |-> <<>>, us |-> <<>>, umm |-> 0,      \* unmodded_keys, unshifted_keys, unmodded_mods (bits)
+    sq |-> InitSq,          \* defseq sequence mode (SeqMode.tla); only touched when "seqtrie" \in DOMAIN Opts
     dyn |-> DmInit ]        \* dynamic macros (DynMacro.tla): record / replay state, stored macros
 
 \* src: output_logic.rs press_key / release_key (zippychord disabled => plain)
@@ -99,6 +100,9 @@ CustomPress(K, c) ==
     [] c.c = "dynrec" -> DynApply(K, DmBeginRecord(K.dyn, c.n))
     [] c.c = "dynstop" -> DynApply(K, DmStopMacro(K.dyn, c.n))
     [] c.c = "dynplay" -> [K EXCEPT !.dyn = DmPlayMacro(@, c.n)]
+    \* src: mod.rs SequenceCancel / SequenceLeader / SequenceNoerase arms (SeqMode.tla)
+    [] SqOn /\ c.c \in {"seqcancel", "seqleader", "seqnoerase"} ->
+         LET sr == SqCustom(K.sq, K.out, c) IN [K EXCEPT !.sq = sr.sq, !.out = sr.out]
     [] OTHER -> K
 
 RECURSIVE CustomPressAll(_, _, _)
@@ -157,7 +161,13 @@ HandleKeystateChanges(K) ==
       prevOrder == IF RevRelease(ce) THEN Reverse(K.prev) ELSE K.prev
       rel == ReleasesOut(prevOrder, cur)
       pr == PressesOut(cur, K.prev, <<>>, K.lpk)
-      K1 == [K EXCEPT !.L = ov.L, !.out = rel \o pr.out, !.lpk = pr.lpk,
+      \* defseq sequence mode (SeqMode.tla; mod.rs:1181-1250): the all-keys-released check after the
+      \* releases, then the press loop runs every new key through do_sequence_press_logic
+      sqr == IF SqOn /\ K.sq.act /\ cur = <<>> /\ K.prev # <<>> THEN SqAllReleased(K.sq, ov.L, rel)
+             ELSE [sq |-> K.sq, L |-> ov.L, out |-> rel]
+      pl == IF SqOn THEN SqPressLoop(cur, cur, sqr.sq, sqr.L, sqr.out, K.prev, K.lpk)
+            ELSE [sq |-> K.sq, L |-> ov.L, out |-> rel \o pr.out, lpk |-> pr.lpk]
+      K1 == [K EXCEPT !.L = pl.L, !.out = pl.out, !.lpk = pl.lpk, !.sq = pl.sq,
                       !.um = un.um, !.us = un.us, !.umm = un.umm]
       K2 == CASE ce.k = "press" -> CustomPressAll(K1, CuList(ce), "")
               [] ce.k = "release" -> CustomReleaseAll(K1, CuList(ce), "")
@@ -184,10 +194,16 @@ HeldVkeys(L, vpr, acc) ==
        ELSE HeldVkeys(L, Tail(vpr), Append(acc, v))
 
 TickStates(K) ==
-  LET K1 == HandleKeystateChanges(K)
+  LET K0 == HandleKeystateChanges(K)
+      \* src: mod.rs:873 tick_sequence_state (after scrolling / mouse movement, before the idle timers)
+      K1 == IF ~SqOn THEN K0
+            ELSE LET st == SqTick(K0.sq, K0.out) IN
+                 [K0 EXCEPT !.sq = st.sq, !.out = st.out, !.L = IF st.panic # "" THEN Panic(@, st.panic) ELSE @]
       K2 == IdleFire(K1, K1.wfi)
       K3 == [K2 EXCEPT !.mcd = SatSub(@, 1),
-                       !.dyn = DmTickRecord(@, Caps.age)]     \* 853 tick_record_state
+                       \* 853 tick_record_state
+                       !.dyn = DmTickRecord(@, IF Opts.dynamic_macro_replay_delay_behaviour = "Recorded"
+                                               THEN Caps.age ELSE 0)]
       hv == HeldVkeys(K3.L, K3.vpr, <<>>)
   IN [K3 EXCEPT !.L = hv.L, !.vpr = hv.vpr]
 
@@ -206,6 +222,8 @@ IsIdle(K) ==
      /\ K.mcd = 0
      /\ K.vpr = <<>>
      /\ K.dyn.rep = <<>>                       \* dynamic_macro_replay_state.is_none()
+     /\ (~SqOn \/ ~K.sq.act)                   \* sequence_state.is_inactive()
+     /\ (~HasChv2 \/ CvIsIdle(L.chv2))         \* chords_v2.map(is_idle_chv2).unwrap_or(true)
      /\ ~\E i \in DOMAIN L.states :
             L.states[i].t \in {"scp", "sca"} \/ (pressedMeansNotIdle /\ L.states[i].t = "nk")
 
@@ -216,7 +234,8 @@ CanBlockUpdate(K) ==
       K1 == IF ~idle THEN [K EXCEPT !.tsi = 0]
             ELSE IF counting THEN [K EXCEPT !.tsi = CapAdd1(@)] ELSE K
       passed == K.L.hk = <<>> \/ K.L.hk[1].age >= Opts.switch_max_key_timing
-  IN [K |-> K1, cb |-> idle /\ ~counting /\ passed]
+  IN [K |-> K1, cb |-> idle /\ ~counting /\ passed
+                       /\ (~HasChv2 \/ CvAccepts(K.L.chv2))]   \* chordsv2_accepts_chords (mod.rs:2153-2160)
 
 \* ----- the deterministic stepper (DESIGN 3.1) ---------------------------------------------
 \* one Tick = tick_ms(1) ; can_block_update_idle_waiting(1)
@@ -261,4 +280,18 @@ Proj(K) ==
     lpc |-> L.lpc, lpt |-> L.lpt, nseq |-> Len(L.seqs), naq |-> Len(L.aq), dl |-> L.dl,
     prev |-> K.prev, tsi |-> K.tsi, nwfi |-> Cardinality(K.wfi), nvpr |-> Len(K.vpr) ]
   @@ DmProj(K.dyn)
+  @@ (IF SqOn THEN [sq |-> SqProj(K.sq)] ELSE [zz \in {} |-> 0])
+  @@ (IF HasChv2 THEN [cv2i |-> CvIsIdle(K.L.chv2), cv2a |-> CvAccepts(K.L.chv2)] ELSE [zz \in {} |-> 0])
+\* ----- canonical form of the chords-v2 virtual coordinates for the VIEW of model-checking instances (ChordsV2.tla):
+\* the coordinates (0, KEY_MAX+1 .. KEY_MAX+50) are renamed to their age relative to next_coord in the places where a
+\* chord action with plain key / custom actions can leave them (states, queues, last-press coordinate).
+CvCanonK(K) ==
+  IF ~HasChv2 THEN K
+  ELSE LET nc == K.L.chv2.nc IN
+       [K EXCEPT !.L.states = [i \in DOMAIN @ |-> [@[i] EXCEPT !.y = CvRel(nc, @)]],
+                 !.L.queue = [i \in DOMAIN @ |-> [@[i] EXCEPT !.y = CvRel(nc, @)]],
+                 !.L.aq = [i \in DOMAIN @ |-> [@[i] EXCEPT !.y = CvRel(nc, @)]],
+                 !.L.lpc = <<@[1], CvRel(nc, @[2])>>,
+                 !.L.chv2.ach = [i \in DOMAIN @ |-> [@[i] EXCEPT !.coord = CvRel(nc, @)]],
+                 !.L.chv2.nc = 0]
 =============================================================================
